@@ -52,9 +52,8 @@ func MakeNfs(d disk.Disk) *Nfs {
 		Unstable: true,
 		verf:     mkVerf(),
 	}
-	if i.Kind == 0 {
-		nfs.makeRootDir()
-	}
+	// also after a restart: the first start may have stopped before it got here
+	nfs.makeRootDir()
 	return nfs
 }
 
@@ -87,6 +86,10 @@ func (nfs *Nfs) makeRootDir() {
 	if ip == nil {
 		panic("makeRootDir")
 	}
+	if ip.Size > 0 { // "." and ".." are there
+		op.Abort()
+		return
+	}
 	if !dir.MkRootDir(ip, op) {
 		panic("makeRootDir: no space for the root directory")
 	}
@@ -96,9 +99,14 @@ func (nfs *Nfs) makeRootDir() {
 	}
 }
 
-// Make an empty file system
+// Make an empty file system. The root inode marks the disk as formatted
+// (MakeNfs looks at its kind), so it is written last, after the bitmaps have
+// reached the disk: a first start that is cut short is started over.
 func makeFs(super *super.FsSuper) {
 	util.DPrintf(1, "mkfs")
+
+	markAlloc(super, super.DataStart(), super.MaxBnum())
+	super.Disk.Barrier()
 
 	root := inode.MkRootInode()
 	util.DPrintf(1, "root %v\n", root)
@@ -106,8 +114,7 @@ func makeFs(super *super.FsSuper) {
 	rootblk := root.Encode()
 	rootbuf := buf.MkBuf(raddr, common.INODESZ*8, rootblk)
 	rootbuf.WriteDirect(super.Disk)
-
-	markAlloc(super, super.DataStart(), super.MaxBnum())
+	super.Disk.Barrier()
 }
 
 func markAlloc(super *super.FsSuper, n common.Bnum, m common.Bnum) {
